@@ -70,6 +70,11 @@ C02_Refute(e) ==
      /\ \E i \in DOMAIN e.bcast : /\ e.bcast[i].type = "alive" /\ e.bcast[i].node = e.n
                                   /\ e.bcast[i].inc = e.post.inc
 
+\* a push/pull entry that accuses the local node must reach the membership rules (where
+\* C02_Refute judges the answer); MergeEntry lines carry the entry, the record before, and
+\* the number of membership steps it caused
+C02_MergeReaches(e) == (e.ev = "MergeEntry" /\ Accuses(e)) => e.nodeOps >= 1
+
 \* after any step of a running, non-leaving node it still lists itself, alive
 C02_SelfAlive(e) ==
   (e.ev \in {"NodeOp", "Reap"} /\ ~e.leave /\ e.created) =>
@@ -153,7 +158,7 @@ C18_Source(e)  == (e.ev = "UdpAlive" /\ e.cfg.allowOn /\ ~e.srcAllowed) => e.nod
 
 -----------------------------------------------------------------------------
 (* all single-step membership predicates, by name - used by models and trace specs *)
-StepProps == <<"C01_StaleNoEffect", "C01_Forward", "C02_Refute", "C02_SelfAlive", "C07_Serial",
+StepProps == <<"C01_StaleNoEffect", "C01_Forward", "C02_Refute", "C02_MergeReaches", "C02_SelfAlive", "C07_Serial",
                "C08_Left", "C08_NoResurrect", "C08_LeaverStays", "C08_NoHijack", "C08_Reuse",
                "C09_Hearsay", "C18_Records", "C18_Events", "C18_Adopt", "C18_Source">>
 
@@ -161,6 +166,7 @@ StepHolds(name, e) ==
   CASE name = "C01_StaleNoEffect" -> C01_StaleNoEffect(e)
     [] name = "C01_Forward"       -> C01_Forward(e)
     [] name = "C02_Refute"        -> C02_Refute(e)
+    [] name = "C02_MergeReaches"  -> C02_MergeReaches(e)
     [] name = "C02_SelfAlive"     -> C02_SelfAlive(e)
     [] name = "C07_Serial"        -> C07_Serial(e)
     [] name = "C08_Left"          -> C08_Left(e)
@@ -180,6 +186,7 @@ StepAnte(name, e) ==
   CASE name = "C01_StaleNoEffect" -> IsNodeOp(e) /\ ~IsAbsent(e.pre) /\ Below(e) /\ ~LegitReclaim(e)
     [] name = "C01_Forward"       -> IsNodeOp(e) /\ ~IsAbsent(e.pre) /\ ~IsAbsent(e.post) /\ e.post # e.pre
     [] name = "C02_Refute"        -> IsNodeOp(e) /\ Accuses(e)
+    [] name = "C02_MergeReaches"  -> e.ev = "MergeEntry" /\ Accuses(e)
     [] name = "C02_SelfAlive"     -> e.ev \in {"NodeOp", "Reap"} /\ ~e.leave /\ e.created
     [] name = "C07_Serial"        -> e.ev \in {"NodeOp", "Reap"} /\ e.events # <<>>
     [] name = "C08_Left"          -> IsNodeOp(e) /\ e.op = "dead" /\ e.claim.from = e.claim.node /\ e.post # e.pre
